@@ -49,7 +49,8 @@ def _gen_worker(key):
         obs = []
         for ob in rep.obligations:
             obs.append(dict(name=ob.name, kind=ob.kind, func=ob.func, lineno=ob.lineno, tags=list(ob.tags), note=ob.note,
-                            smt2=solve.to_smt2(ob.hyps, ob.goal)))
+                            trivial=bool(getattr(ob, "trivial", False)),
+                            smt2=("" if getattr(ob, "trivial", False) else solve.to_smt2(ob.hyps, ob.goal))))
         vac = []
         for name, pc in rep.vacuity:
             import z3
@@ -64,6 +65,8 @@ def _gen_worker(key):
 
 def _solve_worker(args):
     smt2, timeout_s, both, expect_sat = args
+    if smt2 == "":
+        return dict(verdict="unsat", stage=0, backend="identity", time=0.0, attempts=[("goal is a hypothesis", "unsat", 0.0)], stats={}, model=None)
     from vc import solve
     try:
         if expect_sat:
@@ -195,6 +198,8 @@ def run_check(prop_id, tier="quick", seed=0):
     errors = [(g["key"], g["error"]) for g in gens if g.get("error")]
     n_ob = n_dis = 0
     refuted, unknown, solver_errors, vacuous = [], [], [], []
+    vac_all = {}
+    dead_returns = []
     per_ob = []
     solver_time = 0.0
     backends = {}
@@ -205,8 +210,7 @@ def run_check(prop_id, tier="quick", seed=0):
     for (key, ob), r in zip(meta, results):
         solver_time += r.get("time", 0.0)
         if ob["kind"] == "vacuity":
-            if r["verdict"] == "unsat":
-                vacuous.append(ob["name"])
+            vac_all.setdefault(ob["name"].rsplit(".", 1)[0], []).append((ob["name"], r["verdict"]))
             continue
         n_ob += 1
         rec = dict(name=ob["name"], kind=ob["kind"], verdict=r["verdict"], stage=r.get("stage"), backend=r.get("backend"),
@@ -221,6 +225,16 @@ def run_check(prop_id, tier="quick", seed=0):
             solver_errors.append((ob["name"], r.get("error")))
         else:
             unknown.append(ob["name"])
+    # vacuity guard: the preconditions of every function must be satisfiable and at least one return path must be reachable
+    # (a single unreachable return path is a proved dead path, reported; all of them unreachable means contradictory assumptions)
+    for fn_name, items in vac_all.items():
+        rets = [(n_, v_) for n_, v_ in items if "_reachable" in n_]
+        for n_, v_ in items:
+            if n_.endswith("requires_satisfiable") and v_ == "unsat":
+                vacuous.append(n_)
+        if rets and all(v_ == "unsat" for _, v_ in rets):
+            vacuous.append(fn_name + ".all_returns_unreachable")
+        dead_returns += [n_ for n_, v_ in rets if v_ == "unsat"]
     # ---- violations vs known findings
     os.makedirs(os.path.join(VERIF, "replays"), exist_ok=True)
     violations = []
@@ -293,7 +307,7 @@ def run_check(prop_id, tier="quick", seed=0):
             "backends": backends, "solver_time_s": round(solver_time, 2),
             "refuted": [o["name"] for _, o, _ in refuted], "undecided": unknown, "solver_errors": solver_errors,
             "known_findings_matched": [h.get("obligation") for h, _, _ in known_hits],
-            "vacuity": {"checked": sum(1 for (_, o) in meta if o["kind"] == "vacuity"), "vacuous": vacuous},
+            "vacuity": {"checked": sum(1 for (_, o) in meta if o["kind"] == "vacuity"), "vacuous": vacuous, "dead_return_paths": dead_returns},
             "source_sha256": {f: sha256_file(os.path.join(REPO, f)) for f in files if os.path.exists(os.path.join(REPO, f))},
             "dropped_by_extraction": sorted({d for g in gens for d in g["dropped"]}) + ["docstrings", "type annotations", "import statements", "comments"],
             "notes": sorted({n for g in gens for n in g["notes"]}),
